@@ -448,7 +448,7 @@ func writeReplay(path, prop string, a *AggOutcome, repo string) bool {
 		}
 	}
 	if !confirmed {
-		fmt.Fprintf(&b, "\nno-failing-input-found: the obligation was discharged on the unchanged tree and is not discharged now; no concrete input was replayed\n")
+		fmt.Fprintf(&b, "\nno-failing-input-found: every obligation of this property is discharged on the unchanged tree and this one is not discharged on the tree checked now (it may be an obligation the change itself introduced); no concrete input was replayed\n")
 	}
 	os.WriteFile(path, []byte(b.String()), 0o644)
 	return confirmed
